@@ -12,6 +12,7 @@ from harness.props import C04
 
 THEOREM_MODULES = ['ExaModel.Props.C11']
 DRIVERS = ['drv_rib']
+TABLES: list[str] = []  # no generated table is used by this property
 ASSUMPTIONS = C04.ASSUMPTIONS + [
     'RIB part only: the End-of-RIB markers and the reconnect path are covered by the session rig (C05/C10)',
     'include_withdraw=False at session start is set by the harness as Peer._main does (local variable of _main)',
